@@ -89,6 +89,7 @@ def scenarios(tier, seed, repo_root, outdir):
     p = subprocess.run(['/venv/bin/python', os.path.join(here, 'scenario.py'), str(seed), str(nh), str(ln), str(db), out], capture_output=True, text=True, env=env, cwd=repo_root, timeout=3000)
     if not os.path.exists(out): raise RuntimeError('scenario runner failed: ' + (p.stderr or p.stdout)[-2000:])
     r = json.load(open(out))
-    return dict(evaluations=r['histories'] + r['durations'] + r['memories'], failure=r['failure'],
-                label='%d random operation histories <= %d ops (3 scopes, 7 settings incl. object-valued, invalid values) vs reference model + JSON round trip; Duration grid (|us| <= %d + boundary grid); ConfigMemory grid (bounded)' % (nh, ln, db),
-                clause='effective value = most specific scope else default; rejected operations change nothing; serialise/load round trips')
+    if not r['failure'] and r.get('compiled', 0) < 20: raise RuntimeError('compiled-operation explorer is vacuous: %r' % r.get('compiled'))
+    return dict(evaluations=r['histories'] + r['durations'] + r['memories'] + r.get('compiled', 0), failure=r['failure'],
+                label='30 compiled CONFIGURE SET statements (hand-built IR through the real staeval.evaluate_to_config_op, apply, lookup); %d random operation histories <= %d ops (3 scopes, 7 settings incl. object-valued, invalid values) vs reference model + JSON round trip; Duration grid (|us| <= %d + boundary grid); ConfigMemory grid (bounded)' % (nh, ln, db),
+                clause='a compiled SET yields exactly the literals written; effective value = most specific scope else default; rejected operations change nothing; serialise/load round trips')
